@@ -111,6 +111,21 @@ func condCanon(v ssa.Value) (string, bool) {
 		}
 		break
 	}
+	if bo, ok := v.(*ssa.BinOp); ok && (bo.Op == token.EQL || bo.Op == token.NEQ) {
+		// `x == false`, `x != true`, ... fold into the polarity of x
+		for _, pr := range [][2]ssa.Value{{bo.X, bo.Y}, {bo.Y, bo.X}} {
+			if b, isC := ConstBool(Strip(pr[1])); isC {
+				s, p2 := condCanon(pr[0])
+				if (bo.Op == token.EQL) != b {
+					p2 = !p2
+				}
+				if !pos {
+					p2 = !p2
+				}
+				return s, p2
+			}
+		}
+	}
 	if bo, ok := v.(*ssa.BinOp); ok {
 		l, r := CanonD(bo.X, 8), CanonD(bo.Y, 8)
 		switch bo.Op {
